@@ -235,10 +235,24 @@ func (c *Condition) String() string {
 
 	if !isNumberRegex.MatchString(value) {
 		// if not a decimal then quote
-		value = strconv.Quote(value)
+		value = QuoteValue(value)
 	}
 
 	return fmt.Sprintf(`%s %s %s`, property, c.operator, value)
+}
+
+// QuoteValue writes the given text as a quoted and escaped literal that parses back to exactly that text
+func QuoteValue(s string) string {
+	quoted := strconv.Quote(s)
+
+	// the lexer takes a backslash followed by a quote as an escaped quote, so if the text ends with a backslash and there's
+	// another quote somewhere after the literal, it won't see our closing quote as such.. so write a final backslash as a
+	// unicode escape instead of \\
+	if strings.HasSuffix(s, `\`) {
+		quoted = strings.TrimSuffix(quoted, `\\"`) + `\u005c"`
+	}
+
+	return quoted
 }
 
 // BoolCombination is a AND or OR combination of multiple conditions
